@@ -2,7 +2,7 @@
    [reachable] = any number of serve_forever / shutdown / server_close calls, client connects and disconnects, and
    completions of awaited operations, in any interleaving (Conc/Lifecycle.v). *)
 From Coq Require Import List Bool Arith.
-From EN Require Import Conc.Lifecycle Proofs.C18_proofs Proofs.C18_theorems Conc.Standalone Proofs.C18_standalone.
+From EN Require Import Conc.Lifecycle Proofs.C18_proofs Proofs.C18_theorems Conc.Standalone Proofs.C18_standalone Proofs.C18_threads.
 Import ListNotations.
 
 (* At most one serve_forever is ever past its entry check, and a serve_forever issued while one is running is refused
@@ -109,6 +109,45 @@ Theorem standalone_shutdown_returns_when_guarded :
   exists s s', trun tinit lost_wakeup_trace = Some s /\ tstep s (TStep 0) = Some (s', [(0, TOk)]) /\ thr s' = [(1, V4)].
 Proof. exact guarded_shutdown_returns. Qed.
 Print Assumptions standalone_shutdown_returns_when_guarded.
+
+(* ---------- threaded wrapper, thread-level model (Conc/Standalone.v): any number of threads, any interleaving of
+   their statement-level segments ---------- *)
+
+(* At most one thread is ever past the entry checks of serve_forever, exactly when the threading event is cleared;
+   a second serve_forever thread that gets the locks meanwhile ends with ServerAlreadyRunning and releases them. *)
+Theorem standalone_second_serve_refused :
+  forall s, treachable s ->
+    cnt isV2 (thr s) + cnt isV4 (thr s) + cnt isV5 (thr s) = (if t_shut s then 0 else 1) /\
+    (forall i j pc rest, In (j, pc) (thr s) -> (pc = V2 \/ pc = V4 \/ pc = V5) ->
+       ttake i (thr s) = Some (V1, rest) -> boot_l s = None ->
+       exists s', tstep s (TStep i) = Some (s', [(i, TAlreadyRunning)]) /\ close_l s' = None /\ t_shut s' = false).
+Proof.
+  intros s R. split; [now apply serving_threads_le_one | intros; eapply second_serve_thread_refused; eauto].
+Qed.
+Print Assumptions standalone_second_serve_refused.
+
+(* Lock discipline: each lock has at most one holder and the holder is where the code says (start-up window V2 holds
+   both; shutdown / server_close hold the bootstrap lock only around their portal call); with no portal and the
+   bootstrap lock free the event is set -- the fact the guarded shutdown relies on. *)
+Theorem standalone_lock_discipline :
+  forall s, treachable s ->
+    cnt isV2 (thr s) + cnt isH1 (thr s) + cnt isC2 (thr s) = held (boot_l s) /\
+    cnt isV1 (thr s) + cnt isV2 (thr s) + cnt isC1 (thr s) + cnt isC2 (thr s) = held (close_l s) /\
+    (boot_l s = None -> portal s = false -> t_shut s = true /\ tgen s = tfin s).
+Proof.
+  intros s R. destruct (lock_holders s R) as [A B]. repeat split; auto; intros; now apply no_portal_means_stopped.
+Qed.
+Print Assumptions standalone_lock_discipline.
+
+(* No deadlock among the threads (with the guarded shutdown): whenever some thread exists other than the serving
+   thread idling in its loop with no stop requested, some thread can take a step or the asynchronous run can end. *)
+Theorem standalone_no_deadlock :
+  Gen.ParamsC18.standalone_shutdown_guarded = true ->
+  forall s, treachable s ->
+    (exists i pc, In (i, pc) (thr s) /\ ~ (pc = V4 /\ arun s = true /\ astop s = false)) ->
+    (exists id, tstep s (TStep id) <> None) \/ tstep s TAsyncEnd <> None.
+Proof. exact no_deadlock_threads. Qed.
+Print Assumptions standalone_no_deadlock.
 
 Example reachable_busy_state :
   exists s, reachable s /\ busy s /\ serves s = [(0, SWait)] /\ dying s = 1.
